@@ -150,6 +150,12 @@ func runC01(c *Ctx) {
 	// shared with C06: what stands in front of a copy must not change how the copy's lines are tokenized - the position
 	// offset left by a hyphenated word in the context ends with its line (R06.9/R06.10)
 	checkMidLineReset(c, p)
+	checkTruncationOrder(c, p)
+	// shared with C12: a copy of a document loaded from a directory is reported under that document's own labels only if
+	// the labels do not depend on how the directory was spelled (R12.2)
+	if c.R.Filter == nil {
+		borrowRules(c, []string{"R12.2"}, runC12)
+	}
 	ts := p.Func(v2pkg, "tokenizeStream")
 	if !c.R.Anchor(ts != nil, "v2.tokenizeStream") {
 		return
@@ -568,6 +574,9 @@ func runC02(c *Ctx) {
 	checkTokenIDUses(c, p)
 	// shared with C06: the line of a word that is assembled across a buffer refill (R06.3)
 	checkFlagsSurviveRefill(c, p)
+	// shared with C06: a word is the first of its line - and may be dropped as a list marker - only if nothing of the line
+	// was handed over before it (R06.15); a dropped word that belongs to the text makes a longer text score 1.0
+	checkLineStringifier(c, p)
 	sc := p.Func(v2pkg, "(*Classifier).score")
 	if !c.R.Anchor(sc != nil, "v2.(*Classifier).score") {
 		return
@@ -824,6 +833,26 @@ func runC05(c *Ctx) {
 	ts := p.Func(v2pkg, "tokenizeStream")
 	if !c.R.Anchor(ts != nil, "v2.tokenizeStream") {
 		return
+	}
+	// R05.7: the tokenizer never asks which case a letter has. It folds case (unicode.ToLower, strings.ToLower); a test of
+	// the case of a rune or a word (unicode.IsUpper / IsLower / IsTitle) makes the token stream of a re-cased text differ.
+	{
+		nU, bad := 0, ""
+		for _, f := range pkgClosure(ts, v2pkg) {
+			for _, call := range core.CallsIn(f) {
+				n := core.StaticCalleeName(call.Common())
+				if !strings.HasPrefix(n, "unicode.") && !strings.HasPrefix(n, "strings.To") {
+					continue
+				}
+				nU++
+				if n == "unicode.IsUpper" || n == "unicode.IsLower" || n == "unicode.IsTitle" {
+					bad = n + " in " + core.ShortFn(f) + " (" + p.Pos(call.Pos()) + ")"
+				}
+			}
+		}
+		c.R.Check(bad == "", "R05.7", "the tokenizer folds case and never tests it", v2pkg, fmt.Sprintf("%d calls of unicode.* / strings.To* in the tokenizer, none a test of a letter's case", nU),
+			"the tokenizer calls "+bad+": what it does with a word depends on how the word is cased, so upper- or lower-casing a text changes its tokens")
+		c.R.RequireMin("R05.7", "calls of unicode.* / strings.To* in the tokenizer", nU, 2)
 	}
 	normalize := ts.Params[1]
 	deadUnderNormalize := func(b *ssa.BasicBlock) bool {
@@ -1228,6 +1257,7 @@ func runC06(c *Ctx) {
 	// the bytes carried over to the next window start where the rune loop stopped (R08.4/R08.5/R08.8)
 	tokenizerWindowRules(c, p)
 	checkWordTable(c, p)
+	checkLineStringifier(c, p)
 	// R03.7
 	n := 0
 	for _, lit := range structLits(v2Funcs(p), "/v2.Match") {
@@ -1822,9 +1852,62 @@ func runC11(c *Ctx) {
 	// words that Match of the normalized text treats differently
 	checkSchemeRewrite(c, p)
 	checkNoticePatternsUnconditional(c, p)
+	// shared with C08: Normalize moves the bytes of the text to other offsets, so the original and its normalized form agree
+	// only if no word depends on where the read window happens to end (R08.4/R08.5/R08.8)
+	tokenizerWindowRules(c, p)
 	ts := p.Func(v2pkg, "tokenizeStream")
 	if !c.R.Anchor(ts != nil, "v2.tokenizeStream") {
 		return
+	}
+	// R11.12: the letters of a word are lower-cased whether the text is being normalised or only tokenised: the later steps
+	// that both passes share (character references, notice patterns) are case-sensitive, so a word that keeps its case in one
+	// pass only comes out as another word
+	{
+		var strictLowered func(v ssa.Value, depth int) bool
+		strictLowered = func(v ssa.Value, depth int) bool {
+			if depth > 6 {
+				return false
+			}
+			switch x := v.(type) {
+			case *ssa.Call:
+				return core.StaticCalleeName(&x.Call) == "unicode.ToLower"
+			case *ssa.Phi:
+				for _, e := range x.Edges {
+					if !strictLowered(e, depth+1) {
+						return false
+					}
+				}
+				return len(x.Edges) > 0
+			}
+			return false
+		}
+		nA := 0
+		for _, call := range core.CallsIn(ts) {
+			if core.StaticCalleeName(call.Common()) != "unicode/utf8.AppendRune" {
+				continue
+			}
+			// the first rune of a word is exempt: Normalize keeps the case of the first letter (a leading `&` or letter cannot
+			// be the inside of a character reference)
+			first := false
+			for _, f := range core.FactsAt(call.Block()) {
+				if cmp, ok := f.AsCmp(); ok && cmp.Op == token.EQL {
+					if k, isK := core.ConstInt(cmp.Y); isK && k == 0 {
+						if lc, isCall := cmp.X.(*ssa.Call); isCall {
+							if bi, isB := lc.Call.Value.(*ssa.Builtin); isB && bi.Name() == "len" {
+								first = true
+							}
+						}
+					}
+				}
+			}
+			if first {
+				continue
+			}
+			nA++
+			c.R.Check(strictLowered(call.Common().Args[1], 0), "R11.12", "tokenizeStream: a rune appended behind the first one of a word is lower-cased in both passes", p.Pos(call.Pos()),
+				"unicode.ToLower(...) on every path, whatever the normalize flag", "on some path (the one taken when the text is only tokenised, not normalised) the rune reaches the word buffer with its case: Normalize and Match then disagree on words whose later treatment is case-sensitive (character references such as &Quot;)")
+		}
+		c.R.RequireMin("R11.12", "runes appended to the word buffer", nA, 1)
 	}
 	// R11.1: flag independence of the line counter and of every Line stored
 	for _, fn := range []*ssa.Function{ts, p.Func(v2pkg, "stringifyLineBuf"), p.Func(v2pkg, "appendToDoc")} {
@@ -3493,6 +3576,111 @@ func runC17(c *Ctx) {
 		c.R.RequireMin("R17.6", "stores into the bounds of a MatchRange", nSt, 8)
 	}
 
+	// R17.9 the ranges of a candidate stay in target order: every sort of match ranges in the package has the target
+	// position as its first key (TargetRange takes its start from the first range and its end from the last)
+	{
+		var ssFns []*ssa.Function
+		for _, f := range p.SrcFuncs(ssPkg) {
+			if core.FuncPkgPath(f) == ssPkg {
+				ssFns = append(ssFns, f)
+			}
+		}
+		oa := eng.NewOrderAnalysis(p, ssFns)
+		oa.FindSorts()
+		nS := 0
+		for _, srt := range oa.Sorts {
+			et := srt.Value.Type()
+			if sl, ok := et.Underlying().(*types.Slice); !ok || !strings.Contains(core.TypeName(sl.Elem()), "MatchRange") {
+				continue
+			}
+			nS++
+			okS := srt.Cmp != nil && srt.Cmp.Undecided == "" && srt.Cmp.FirstKey == "TargetStart" && srt.Cmp.FirstDir == "asc"
+			c.R.Check(okS, "R17.9", core.ShortFn(srt.Fn)+": match ranges are sorted by target position first", p.Pos(srt.Call.Pos()), "first key TargetStart ascending",
+				"a sort of match ranges orders by "+firstKeyDesc(srt.Cmp)+": the ranges of a candidate leave target order, and the byte range read from the first and the last of them has its start behind its end")
+		}
+		c.R.RequireMin("R17.9", "sorts of match ranges in searchset", nS, 1)
+	}
+	// R17.8 what is said about the target comes from the target: in a function that is given a source and a target search
+	// set, no Target* bound of a match range is computed from the source set, and no Src* bound from the target set
+	{
+		nP, bad := 0, ""
+		for _, f := range p.SrcFuncs(ssPkg) {
+			if core.FuncPkgPath(f) != ssPkg || f.Parent() != nil {
+				continue
+			}
+			var src, tgt *ssa.Parameter
+			for _, prm := range f.Params {
+				if !strings.HasSuffix(core.TypeName(prm.Type()), "searchset.SearchSet") {
+					continue
+				}
+				switch prm.Name() {
+				case "src", "source", "known":
+					src = prm
+				case "target", "tgt", "unknown":
+					tgt = prm
+				}
+			}
+			if src == nil || tgt == nil {
+				continue
+			}
+			nP++
+			var dep func(v ssa.Value, root ssa.Value, seen map[ssa.Value]bool) bool
+			dep = func(v ssa.Value, root ssa.Value, seen map[ssa.Value]bool) bool {
+				if v == root {
+					return true
+				}
+				if v == nil || seen[v] {
+					return false
+				}
+				seen[v] = true
+				in, ok := v.(ssa.Instruction)
+				if !ok {
+					return false
+				}
+				if _, isPhi := v.(*ssa.Phi); isPhi {
+					// loop counters join everything: follow the data, not the loop structure
+				}
+				for _, op := range in.Operands(nil) {
+					if *op != nil && dep(*op, root, seen) {
+						return true
+					}
+				}
+				return false
+			}
+			for _, b := range f.Blocks {
+				for _, in := range b.Instrs {
+					st, ok := in.(*ssa.Store)
+					if !ok {
+						continue
+					}
+					fa, ok := st.Addr.(*ssa.FieldAddr)
+					if !ok || !strings.HasSuffix(core.TypeName(fa.X.Type()), "searchset.MatchRange") {
+						continue
+					}
+					name := core.FieldName(fa)
+					var other ssa.Value
+					if strings.HasPrefix(name, "Target") {
+						other = src
+					} else if strings.HasPrefix(name, "Src") {
+						other = tgt
+					} else {
+						continue
+					}
+					own := ssa.Value(tgt)
+					if other == ssa.Value(tgt) {
+						own = src
+					}
+					if dep(st.Val, other, map[ssa.Value]bool{}) && !dep(st.Val, own, map[ssa.Value]bool{}) {
+						bad = fmt.Sprintf("%s: %s is computed from the %s set alone (%s)", core.ShortFn(f), name, other.Name(), p.Pos(st.Pos()))
+					}
+				}
+			}
+		}
+		c.R.Check(bad == "", "R17.8", "searchset: a bound on the target side is not taken from the source set, nor the other way round", ssPkg,
+			fmt.Sprintf("%d functions with a source and a target set examined", nP), bad+": the bound can lie outside the text it is applied to - TargetRange then indexes past the target's tokens")
+		c.R.RequireMin("R17.8", "functions given a source and a target search set", nP, 2)
+	}
+
 	// R17.2 candidates sorted by target position
 	gm := p.Func(ssPkg, "getMatchedRanges")
 	if c.R.Anchor(gm != nil, "searchset.getMatchedRanges") {
@@ -4025,4 +4213,233 @@ func noTrailingValue(v ssa.Value, sfx string, depth int) bool {
 		}
 	}
 	return n > 0
+}
+
+
+// checkTruncationOrder: R01.8. A list that is cut at its first element below a bound (`for i, m := range l { if m.F < bound
+// { l = l[:i]; break } }`) loses everything behind that element - which is only right if the list is in descending order
+// of F. Two sites cooperate: the loop that cuts, and the sort in the function that produced the list. The rule finds the
+// cut, follows the list back through the package's own functions to the slice that is returned, and requires a sort of
+// that slice, before the return, whose first key is F, descending.
+func checkTruncationOrder(c *Ctx, p *core.Prog) {
+	n := 0
+	for _, fn := range pkgFuncs(p, v2pkg) {
+		for _, rl := range rangeLoopsOf(fn) {
+			if _, isSl := rl.over.Type().Underlying().(*types.Slice); !isSl {
+				continue
+			}
+			loop := naturalLoop(rl.header)
+			for _, b := range fn.Blocks {
+				if !loop[b] || b == rl.header {
+					continue
+				}
+				ifi, ok := b.Instrs[len(b.Instrs)-1].(*ssa.If)
+				if !ok {
+					continue
+				}
+				bo, ok := ifi.Cond.(*ssa.BinOp)
+				if !ok || (bo.Op != token.LSS && bo.Op != token.LEQ) {
+					continue
+				}
+				field := ""
+				switch x := bo.X.(type) {
+				case *ssa.UnOp:
+					if fa, isFA := x.X.(*ssa.FieldAddr); isFA {
+						field = core.FieldName(fa)
+					}
+				case *ssa.Field:
+					if st, isSt := x.X.Type().Underlying().(*types.Struct); isSt {
+						field = st.Field(x.Field).Name()
+					}
+				}
+				if field == "" {
+					continue
+				}
+				// the true branch re-slices the ranged list from its start and leaves the loop
+				cuts := false
+				for _, in := range b.Succs[0].Instrs {
+					if sl, isSl := in.(*ssa.Slice); isSl && sl.X == rl.over && sl.Low == nil && sl.High != nil {
+						cuts = true
+					}
+				}
+				leaves := false
+				for _, sc := range b.Succs[0].Succs {
+					if !loop[sc] {
+						leaves = true
+					}
+				}
+				if !cuts || !leaves {
+					continue
+				}
+				n++
+				ok2, why := producerSortedBy(p, rl.over, field, 0)
+				c.R.Check(ok2, "R01.8", core.ShortFn(fn)+": the list cut at the first element with a small "+field+" is in descending order of "+field, p.Pos(ifi.Cond.Pos()), why,
+					why+": the cut drops every element behind the first small one, among them candidates that are large enough - a verbatim copy is never scored when a weaker candidate sorts in front of it")
+			}
+		}
+	}
+	c.R.RequireMin("R01.8", "lists cut at the first element below a bound", n, 1)
+}
+
+// producerSortedBy: the slice v was, in the function that made it, sorted with first key `field` descending, and not
+// re-ordered afterwards.
+func producerSortedBy(p *core.Prog, v ssa.Value, field string, depth int) (bool, string) {
+	if depth > 4 {
+		return false, "the list's origin is more than four calls away"
+	}
+	switch x := v.(type) {
+	case *ssa.Const:
+		if x.IsNil() {
+			return true, "nil"
+		}
+	case *ssa.Phi:
+		why := ""
+		for _, e := range x.Edges {
+			ok, w := producerSortedBy(p, e, field, depth+1)
+			if !ok {
+				return false, w
+			}
+			why = w
+		}
+		return true, why
+	case *ssa.Call:
+		g := x.Call.StaticCallee()
+		if g == nil || core.FuncPkgPath(g) != v2pkg || len(g.Blocks) == 0 {
+			return false, "the list comes from a call that is not a function of the package (" + core.StaticCalleeName(&x.Call) + ")"
+		}
+		oa := eng.NewOrderAnalysis(p, []*ssa.Function{g})
+		oa.FindSorts()
+		why := "no return"
+		for _, b := range g.Blocks {
+			ret, ok := b.Instrs[len(b.Instrs)-1].(*ssa.Return)
+			if !ok || len(ret.Results) == 0 {
+				continue
+			}
+			r := ret.Results[0]
+			if cst, isC := r.(*ssa.Const); isC && cst.IsNil() {
+				continue
+			}
+			if inner, isCall := r.(*ssa.Call); isCall {
+				if cal := inner.Call.StaticCallee(); cal != nil && core.FuncPkgPath(cal) == v2pkg {
+					ok2, w := producerSortedBy(p, inner, field, depth+1)
+					if !ok2 {
+						return false, w
+					}
+					why = w
+					continue
+				}
+			}
+			// the last sort of this slice (or of a member of its append web) before the return
+			fam := sliceFamily(r)
+			var last *eng.SortSite
+			for i := range oa.Sorts {
+				srt := oa.Sorts[i]
+				if (srt.Value == r || fam[srt.Value]) && srt.Call.Block().Dominates(b) {
+					if last == nil || instrBeforeI(last.Call, srt.Call) {
+						last = srt
+					}
+				}
+			}
+			if last == nil {
+				return false, core.ShortFn(g) + " returns the list without sorting it (" + p.Pos(ret.Pos()) + ")"
+			}
+			if last.Cmp == nil || last.Cmp.Undecided != "" || last.Cmp.FirstKey != field || last.Cmp.FirstDir != "desc" {
+				return false, "the last sort of the list in " + core.ShortFn(g) + " (" + p.Pos(last.Call.Pos()) + ") orders by " + firstKeyDesc(last.Cmp) + ", not by " + field + " descending"
+			}
+			why = "sorted in " + core.ShortFn(g) + " by " + field + " descending before it is returned"
+		}
+		return true, why
+	}
+	return false, "the list's origin is not a call of a function of the package"
+}
+
+
+// checkLineStringifier: two rules on the function that turns the words of a line into tokens (it returns the tokens and,
+// if the line is a notice, the pseudo-match that reports it).
+// R06.14 both results are used wherever it is called: a caller that takes the tokens and drops the match ignores a notice
+// without reporting it (on the last line of an input that does not end in a line break, say).
+// R06.15 the position it gives the word clean-up is the position in the line: it includes the offset of the words that were
+// handed over earlier from the same line. (Without it the word behind the remainder of a hyphenated word counts as the
+// first of its line and is dropped when it looks like a list marker.)
+func checkLineStringifier(c *Ctx, p *core.Prog) {
+	var sf *ssa.Function
+	for _, f := range pkgFuncs(p, v2pkg) {
+		if f.Parent() != nil || f.Signature.Results().Len() != 2 {
+			continue
+		}
+		r0, r1 := f.Signature.Results().At(0).Type(), f.Signature.Results().At(1).Type()
+		if sl, ok := r0.Underlying().(*types.Slice); ok && core.StructOf(sl.Elem()) != nil && strings.HasSuffix(core.TypeName(r1), "/v2.Match") {
+			sf = f
+		}
+	}
+	if !c.R.Anchor(sf != nil, "v2: the function that turns a line's words into tokens and a notice match") {
+		return
+	}
+	sites, _ := eng.CallSitesOf(sf)
+	for _, cs := range sites {
+		cv, ok := cs.(*ssa.Call)
+		if !ok {
+			continue
+		}
+		used := false
+		if cv.Referrers() != nil {
+			for _, r := range *cv.Referrers() {
+				if ex, isEx := r.(*ssa.Extract); isEx && ex.Index == 1 && ex.Referrers() != nil && len(*ex.Referrers()) > 0 {
+					for _, u := range *ex.Referrers() {
+						if _, isDbg := u.(*ssa.DebugRef); !isDbg {
+							used = true
+						}
+					}
+				}
+			}
+		}
+		c.R.Check(used, "R06.14", core.ShortFn(cs.Parent())+": the notice match of a line is taken from "+sf.Name(), p.Pos(cs.Pos()), "the second result is used",
+			"the match that "+sf.Name()+" returns for a notice line is dropped at this call: the line's words are ignored but no Copyright match reports them")
+	}
+	c.R.RequireMin("R06.14", "calls of the line stringifier", len(sites), 1)
+	// R06.15
+	var clean *ssa.Function
+	nC := 0
+	for _, call := range core.CallsIn(sf) {
+		cal := call.Common().StaticCallee()
+		if cal == nil || core.FuncPkgPath(cal) != v2pkg || len(cal.Params) < 2 {
+			continue
+		}
+		// the clean-up: (position int, word string, ...) string
+		if bt, ok := cal.Params[0].Type().Underlying().(*types.Basic); !ok || bt.Kind() != types.Int || !isString(cal.Params[1].Type()) {
+			continue
+		}
+		clean = cal
+		nC++
+		var offs []*ssa.Parameter
+		for i, prm := range sf.Params {
+			if bt, ok := prm.Type().Underlying().(*types.Basic); ok && bt.Kind() == types.Int && !isLineParam(sf, i, 0) {
+				offs = append(offs, prm)
+			}
+		}
+		dep := false
+		seen := map[ssa.Value]bool{}
+		var walk func(v ssa.Value)
+		walk = func(v ssa.Value) {
+			if v == nil || seen[v] {
+				return
+			}
+			seen[v] = true
+			for _, o := range offs {
+				if v == ssa.Value(o) {
+					dep = true
+				}
+			}
+			if in, ok := v.(ssa.Instruction); ok {
+				for _, op := range in.Operands(nil) {
+					walk(*op)
+				}
+			}
+		}
+		walk(call.Common().Args[0])
+		c.R.Check(dep && len(offs) > 0, "R06.15", sf.Name()+": the position given to "+cal.Name()+" includes the offset of the words handed over before", p.Pos(call.Pos()),
+			"the position is computed from the offset parameter", "the position given to the word clean-up does not include the offset of the words already handed over from this line: the word behind the remainder of a hyphenated word is taken for the first word of its line, and dropped if it looks like a list marker")
+	}
+	_ = clean
+	c.R.RequireMin("R06.15", "calls of the word clean-up in the line stringifier", nC, 1)
 }
